@@ -31,7 +31,8 @@ def _digests(sub: str, a: int, b: int, with_replay: bool = False):
             # the explicit-schedule form (what replay files hold) must be repeatable in itself; it
             # is a different request, so object addresses (hence id()-ordered sets inside fpy2) may
             # differ from the seeded form: equality with the seeded digest is reported, not required
-            run2 = dict(run, schedule=res['segments'])
+            from sim.threads import pack_schedule
+            run2 = dict(run, schedule=pack_schedule(res['segments']))
             kind2, res2 = c18.simulate(run2)
             kind3, res3 = c18.simulate(run2)
             rep = (res2['digest'] if kind2 == 'ok' else kind2, res3['digest'] if kind3 == 'ok' else kind3,
